@@ -1,5 +1,6 @@
 import LabtechModel.Proofs.StoreRefine
 import LabtechModel.Proofs.LinkExampleKeys
+import LabtechModel.Proofs.LinkDumps
 /-!
 # C06 — A cache hit returns the result and metadata stored for that very task
 
@@ -212,5 +213,59 @@ example :
     returned [2] a2 = returned [2] a1 ∧
     (keyOf Lt.Link.exPU 0).cls = .pickle ∧ (keyOf Lt.Link.exPU 1).cls = .null ∧ (keyOf Lt.Link.exPU 2).cls = .other := by
   decide
+
+end Lt.Props.C06
+
+/-! ## the `json.dumps` assumption proved
+
+`DumpsInjOn` is now a theorem (`Lt.Link.dumpsInjOn_of_wfFloats`, from `Lt.Params.dumps_injective`,
+`Proofs/DumpsInj.lean`) for every family of tasks whose float parameters carry float tokens
+(`Lt.Link.WfFloatsOn`: the decidable `Task.wfFloats` for each task of the universe — a well-formedness
+condition of the model's token-carrying `.float` leaves, satisfied by every token `float.__repr__`
+prints).  SHA-1 collision-freeness (`ShaInjOn`) is the one named assumption that remains. -/
+namespace Lt.Props.C06
+open Lt.Store
+
+/-- `keyInj_from_c07` without the `json.dumps` assumption -/
+theorem keyInj_from_c07_dumps_proved (U : Universe) (sha1 : String → String) (task : Nat → Lt.Params.Task)
+    (hrep : Lt.Link.Represents U sha1 task) (hwf : Lt.Link.WfTasks U.n task) (hdist : Lt.Link.Distinct U.n task)
+    (hsha : Lt.Link.ShaInjOn sha1 U.n task) (hfl : Lt.Link.WfFloatsOn U.n task) : KeyInj U :=
+  keyInj_from_c07 U sha1 task hrep hwf hdist hsha (Lt.Link.dumpsInjOn_of_wfFloats U.n task hfl)
+
+/-- `cache_hit_returns_stored_params` without the `json.dumps` assumption -/
+theorem cache_hit_returns_stored_params_dumps_proved (U : Universe) (sha1 : String → String)
+    (task : Nat → Lt.Params.Task)
+    (hrep : Lt.Link.Represents U sha1 task) (hwf : Lt.Link.WfTasks U.n task) (hdist : Lt.Link.Distinct U.n task)
+    (hsha : Lt.Link.ShaInjOn sha1 U.n task) (hfl : Lt.Link.WfFloatsOn U.n task)
+    (g : Nat) (fl : List Nat) (a : Acc) (wf : Wf U a.disk) (t : Nat) (s : Stored) (h : cLoad U a.disk t = some s) :
+    stepC U false g fl a t = { a with vals := (t, some s.val) :: a.vals, loaded := (t, s) :: a.loaded } :=
+  cache_hit_returns_stored_params U sha1 task hrep hwf hdist hsha
+    (Lt.Link.dumpsInjOn_of_wfFloats U.n task hfl) g fl a wf t s h
+
+/-- `second_run_loads_first_runs_result_params` without the `json.dumps` assumption -/
+theorem second_run_loads_first_runs_result_params_dumps_proved (U : Universe) (sha1 : String → String)
+    (task : Nat → Lt.Params.Task)
+    (hrep : Lt.Link.Represents U sha1 task) (hwf : Lt.Link.WfTasks U.n task) (hdist : Lt.Link.Distinct U.n task)
+    (hsha : Lt.Link.ShaInjOn sha1 U.n task) (hfl : Lt.Link.WfFloatsOn U.n task)
+    (d : Disk) (t : Nat) (r : Stored)
+    (hc : cacheable U t = true) (hs : U.nullStorage = false)
+    (others : List (Nat × Stored)) (hne : ∀ p ∈ others, p.1 ≠ t) (hlt : ∀ p ∈ others, p.1 < U.n)
+    (wf : Wf U d) (ht : t < U.n) (g : Nat) (fl : List Nat) (a : Acc)
+    (ha : a.disk = others.foldl (fun d p => cSave U d p.1 p.2) (cSave U d t r)) :
+    (stepC U false g fl a t).vals = (t, some r.val) :: a.vals ∧
+    (stepC U false g fl a t).execd = a.execd ∧
+    (stepC U false g fl a t).loaded = (t, r) :: a.loaded :=
+  second_run_loads_first_runs_result_params U sha1 task hrep hwf hdist hsha
+    (Lt.Link.dumpsInjOn_of_wfFloats U.n task hfl) d t r hc hs others hne hlt wf ht g fl a ha
+
+/-- non-vacuity: `Lt.Link.exPU` satisfies every hypothesis of the `_dumps_proved` theorems, and its
+    `KeyInj` follows without any `json.dumps` assumption -/
+example : Lt.Link.Represents Lt.Link.exPU Lt.Link.exSha Lt.Link.exTask ∧ Lt.Link.WfTasks 3 Lt.Link.exTask ∧
+    Lt.Link.Distinct 3 Lt.Link.exTask ∧ Lt.Link.ShaInjOn Lt.Link.exSha 3 Lt.Link.exTask ∧
+    Lt.Link.WfFloatsOn 3 Lt.Link.exTask ∧ KeyInj Lt.Link.exPU :=
+  ⟨Lt.Link.exPU_represents, Lt.Link.exTask_wf, Lt.Link.exTask_distinct, Lt.Link.exSha_injOn,
+   Lt.Link.exTask_wfFloats,
+   keyInj_from_c07_dumps_proved Lt.Link.exPU Lt.Link.exSha Lt.Link.exTask Lt.Link.exPU_represents
+     Lt.Link.exTask_wf Lt.Link.exTask_distinct Lt.Link.exSha_injOn Lt.Link.exTask_wfFloats⟩
 
 end Lt.Props.C06
